@@ -73,6 +73,19 @@ pub fn run(ctx: &mut Ctx) {
             e0
         };
         let key = fresh_key(&mut rng);
+        // every 25th case: an assertion decorated twice without wrapping, its bare assertion present or obscured
+        let e0 = if case % 25 == 3 {
+            let core = *rng.pick(&[None, Some(Act::Elide), Some(Act::Encrypt), Some(Act::Compress)]);
+            match trap::guard(|| gen::twice_decorated(&mut rng.fork(), core, &key)) {
+                Ok((x, _)) => x,
+                Err(p) => {
+                    ctx.violation(&format!("twice-decorated/build-panic/{}", p.signature()), &format!("{:?}", p), J::s(format!("{:?}", core)));
+                    continue;
+                }
+            }
+        } else {
+            e0
+        };
         // half of the cases start from an envelope that already contains obscured elements
         let e = if rng.chance(1, 2) {
             let mut r2 = rng.fork();
@@ -94,6 +107,12 @@ pub fn run(ctx: &mut Ctx) {
         if before.has_obscured() {
             ctx.count("inputs_with_obscured_parts");
         }
+        if before.has_twice_decorated_assertion(false) {
+            ctx.count("inputs_with_twice_decorated_assertion");
+        }
+        if before.has_twice_decorated_assertion(true) {
+            ctx.count("inputs_with_twice_decorated_assertion_obscured_core");
+        }
         if before.flatten().iter().any(|(_, n)| n.kind == Kind::Node && n.children[0].kind == Kind::Node) {
             ctx.count("inputs_with_node_subject_node");
         }
@@ -104,10 +123,10 @@ pub fn run(ctx: &mut Ctx) {
             let targets = pick_targets(&before, &mut rng);
             let set: HashSet<Digest> = gen::digest_set(&targets);
             let revealing = rng.chance(1, 2);
-            let mut act = *rng.pick(&ACTS);
+            let act = *rng.pick(&ACTS);
             if act == Act::Compress && has_hidden {
-                // Compress reaching an elided/encrypted element is a documented panic (C16, D5)
-                act = Act::Elide;
+                // (since the repair of D5d the Compress action leaves elided / encrypted elements alone)
+                ctx.count("compress_action_over_hidden_elements");
             }
             ctx.eval();
             ctx.count(&format!("op_{:?}_{}", act, if revealing { "revealing" } else { "removing" }));
@@ -175,6 +194,15 @@ pub fn run(ctx: &mut Ctx) {
                         ctx.violation("whole/compress", "compress() changed the digest", jhex(&e));
                     }
                     check_spec(ctx, &c, "compress");
+                    // (the placeholder must also still hold the envelope)
+                    if c.is_compressed() {
+                        match trap::guard(|| c.uncompress()) {
+                            Ok(Ok(u)) if env_bytes(&u) == env_bytes(&e) => {}
+                            Ok(Ok(_)) => ctx.violation("whole/compress-uncompress", "uncompress(compress(e)) is not e", jhex(&e)),
+                            Ok(Err(err)) => ctx.violation("whole/compress-uncompress/err", &format!("uncompress(compress(e)) failed: {}", err), jhex(&e)),
+                            Err(p) => ctx.violation(&format!("whole/compress-uncompress/panic/{}", p.signature()), &format!("{:?}", p), jhex(&e)),
+                        }
+                    }
                 }
                 Err(_) => {
                     if !matches!(before.kind, Kind::Elided | Kind::Encrypted) {
@@ -221,6 +249,12 @@ pub fn run(ctx: &mut Ctx) {
                     ctx.violation("whole/encrypt", "encrypt() does not have the wrapped envelope's digest", jhex(&e));
                 }
                 check_spec(ctx, &x, "encrypt");
+                match trap::guard(|| x.decrypt(&key)) {
+                    Ok(Ok(u)) if env_bytes(&u) == env_bytes(&e) => {}
+                    Ok(Ok(_)) => ctx.violation("whole/encrypt-decrypt", "decrypt(encrypt(e)) is not e", jhex(&e)),
+                    Ok(Err(err)) => ctx.violation("whole/encrypt-decrypt/err", &format!("decrypt(encrypt(e)) failed: {}", err), jhex(&e)),
+                    Err(p) => ctx.violation(&format!("whole/encrypt-decrypt/panic/{}", p.signature()), &format!("{:?}", p), jhex(&e)),
+                }
             }
             Err(p) => ctx.violation(&format!("whole/encrypt/panic/{}", p.signature()), &format!("{:?}", p), jhex(&e)),
         }
